@@ -195,6 +195,9 @@ func TestVendingDispense(t *testing.T) {
 		}
 		if hasRemaining {
 			stock.Remaining = &traits.Consumable_Quantity{Amount: float32(rapid.IntRange(0, 50).Draw(t, "remaining")), Unit: drawUnit(t, "remainingUnit")}
+			if rapid.IntRange(0, 5).Draw(t, "bigStock") == 3 {
+				stock.Remaining.Amount = 1 << 20 // a tank, not a shelf: amounts of very different size meet in one subtraction
+			}
 		}
 		var m *vendingpb.Model
 		if rapid.Bool().Draw(t, "viaOption") {
@@ -210,6 +213,11 @@ func TestVendingDispense(t *testing.T) {
 		var hist []string
 		for i := 0; i < n; i++ {
 			q := &traits.Consumable_Quantity{Amount: float32(rapid.IntRange(0, 30).Draw(t, "qty")), Unit: drawUnit(t, "qtyUnit")}
+			if cur.Remaining != nil && cur.Remaining.Amount >= 1000 && rapid.Bool().Draw(t, "nearlyEverything") {
+				// all but half a unit (exact in float32): what is left is little, and it is left
+				q = &traits.Consumable_Quantity{Amount: cur.Remaining.Amount - 0.5, Unit: cur.Remaining.Unit}
+				lib.Ev.Class("vending: nearly everything of a large stock dispensed")
+			}
 			hist = append(hist, fmt.Sprintf("dispense(%v %v)", q.Amount, q.Unit))
 			var res *traits.Consumable_Stock
 			var err error
@@ -498,7 +506,9 @@ func TestModeRelativeSteps(t *testing.T) {
 				hist = append(hist, fmt.Sprintf("%s=%d", mode.Name, j))
 				continue
 			}
-			k := rapid.OneOf(rapid.IntRange(-6, 6), rapid.IntRange(-1000000, 1000000)).Draw(t, "k")
+			// steps of any size an int32 can carry, its limits included: wrapping is arithmetic modulo the number of values
+			k := rapid.OneOf(rapid.IntRange(-6, 6), rapid.IntRange(-1000000, 1000000),
+				rapid.SampledFrom([]int{math.MinInt32, math.MinInt32 + 1, math.MaxInt32, math.MaxInt32 - 1, math.MaxInt32 / 2, math.MinInt32 / 2})).Draw(t, "k")
 			var res *traits.ModeValues
 			var err error
 			if perr := noPanic("relative UpdateModeValues", func() {
